@@ -49,6 +49,20 @@ fn wr_stream(key: usize, blob: usize) -> Op {
     Op::Write(s)
 }
 
+/// A streamed write whose commit is rejected: the declared size is off by `off`, or (off == 0)
+/// the declared integrity is wrong. It must fail in every order and disturb nobody.
+fn wr_rejected(key: Option<usize>, blob: usize, off: i64) -> Op {
+    let mut s = WriteSpec::simple(key, blob);
+    s.entry = WEntry::Opts;
+    s.chunks = vec![3, 4];
+    if off == 0 {
+        s.integ = IntegDecl::WrongDigest;
+    } else {
+        s.declare = Declare::Off(off);
+    }
+    Op::Write(s)
+}
+
 /// Operation sets chosen to share keys / addresses / bucket files.
 fn op_sets() -> Vec<(Vec<Op>, Vec<Op>)> {
     // (initial state, concurrent operations)
@@ -67,6 +81,11 @@ fn op_sets() -> Vec<(Vec<Op>, Vec<Op>)> {
         (vec![], vec![wr(Some(0), 0), wr(Some(1), 0), wr(None, 0)]),
         (vec![wr(Some(0), 2)], vec![Op::Remove { key: 0 }, wr_stream(0, 1), Op::List]),
         (vec![wr(Some(0), 0), wr(Some(1), 0)], vec![Op::RemoveHash { addr: a(0) }, Op::Read { key: 1 }, wr(Some(0), 0)]),
+        // rejected commits of data that is already stored, racing with its readers
+        (vec![wr(Some(0), 0)], vec![wr_rejected(Some(1), 0, 40), Op::Read { key: 0 }]),
+        (vec![wr(Some(0), 1)], vec![wr_rejected(None, 1, 700), Op::ReadHash { addr: a(1) }]),
+        (vec![wr(Some(0), 0)], vec![wr_rejected(Some(0), 0, 0), Op::Read { key: 0 }]),
+        (vec![wr(Some(0), 1)], vec![wr_rejected(Some(0), 1, -2), Op::Read { key: 0 }, Op::Meta { key: 0 }]),
         // the temp area lives on another filesystem (publication cannot be a rename)
         (vec![Op::TmpElsewhere], vec![wr(None, 0), Op::ReadHash { addr: a(0) }]),
         (vec![wr(Some(1), 0), Op::TmpElsewhere], vec![wr(Some(0), 0), Op::Read { key: 1 }]),
@@ -97,6 +116,7 @@ fn rand_op() -> impl Strategy<Value = Op> {
         4 => (0usize..2, 0usize..3).prop_map(|(k, b)| wr(Some(k), b)),
         2 => (0usize..2, 0usize..3).prop_map(|(k, b)| wr_stream(k, b)),
         1 => (0usize..3).prop_map(|b| wr(None, b)),
+        1 => (0usize..2, 0usize..3, prop_oneof![Just(0i64), Just(1), Just(40), Just(-1)]).prop_map(|(k, b, off)| wr_rejected(Some(k), b, off)),
         2 => (0usize..2).prop_map(|key| Op::Read { key }),
         1 => (0usize..3).prop_map(|b| Op::ReadHash { addr: a(b) }),
         2 => (0usize..2).prop_map(|key| Op::Meta { key }),
